@@ -301,13 +301,74 @@ fn check<M: Matcher>(line: &str, c: &C13, m: &M, msx: &str, head: &str, ctx: &mu
             detail: format!("{:?} on {:?} (matches {}): impl {} spec {}", c.pat, show(&c.input), matches, imp, spec),
         });
     }
-    // theorem C13_nocontext: no inversion, no context, no passthru
-    let guarded = !cfg.inv && cfg.a == 0 && cfg.b == 0 && !cfg.pt;
+    // theorem C13_context / C13_partial: everything but inversion, for a table whose spans are sane
+    let sane = ctx.drv.ask(&format!("c13.sane {} {}", msx, inp));
+    if sane != "1" {
+        ctx.rep.violation(Violation {
+            kind: "impl_vs_model".into(),
+            class: "".into(),
+            tie: "matcher table violates the SpanSane contract of C13_context (spans inside the input, at or after the search position)".into(),
+            case: line.to_string(),
+            detail: format!("c13.sane answered {}", sane),
+        });
+    }
+    let base_guard = cfg.bin == Bin::None && (!cfg.pt || cfg.a == 0) && sane == "1";
+    let mut invsame = String::from("1");
+    if cfg.inv {
+        invsame = ctx.drv.ask(&format!("c13.invsame {} {} {}", csx, msx, inp));
+        let specinv = ctx.drv.ask(&format!("c13.specinv {} {} {}", csx, msx, inp));
+        if (invsame != "0" && invsame != "1") || is_driver_error(&specinv) {
+            ctx.rep.violation(Violation {
+                kind: "impl_vs_model".into(),
+                class: "".into(),
+                tie: "driver".into(),
+                case: line.to_string(),
+                detail: format!("driver answered {} / {}", invsame, specinv),
+            });
+            return;
+        }
+        // the inverted search always delivers mlSpecInv (theorem C13_inverted), finding or not
+        if imp != specinv {
+            ctx.rep.violation(Violation {
+                kind: "impl_vs_spec".into(),
+                class: "".into(),
+                tie: "Sink event stream of the inverted multi-line searcher vs mlSpecInv (grep model for the lines outside the matches the inverted scan finds)".into(),
+                case: line.to_string(),
+                detail: format!("{:?} on {:?}: impl {} specinv {}", c.pat, show(&c.input), imp, specinv),
+            });
+        }
+        if base_guard && !is_driver_error(&model) && model != specinv {
+            ctx.rep.violation(Violation {
+                kind: "model_vs_spec".into(),
+                class: "".into(),
+                tie: "theorem C13_inverted contradicted".into(),
+                case: line.to_string(),
+                detail: format!("model {} specinv {}", model, specinv),
+            });
+        }
+        // the guard of F19 (invertSafe) and the guard of the theorem (invCoverSame): a safe scan selects the spec's lines
+        if guard == "1" && invsame != "1" {
+            ctx.rep.violation(Violation {
+                kind: "model_vs_spec".into(),
+                class: "".into(),
+                tie: "invertSafe holds but the inverted scan and the specification select different lines".into(),
+                case: line.to_string(),
+                detail: format!("matches {}", matches),
+            });
+        }
+        if invsame == "1" {
+            ctx.rep.branch("inverted:scan-selects-spec-lines");
+        }
+    }
+    let guarded = base_guard && (!cfg.inv || invsame == "1");
+    if guarded {
+        ctx.rep.branch(if cfg.inv { "guard:C13_partial(inverted)" } else { "guard:C13_partial" });
+    }
     if guarded && !is_driver_error(&model) && model != spec {
         ctx.rep.violation(Violation {
             kind: "model_vs_spec".into(),
             class: "".into(),
-            tie: "theorem C13_nocontext contradicted".into(),
+            tie: "theorem C13_partial (C13_context) contradicted".into(),
             case: line.to_string(),
             detail: format!("model {} spec {}", model, spec),
         });
